@@ -247,8 +247,7 @@ theorem inline_total (rules : List IRule) (hok : ∀ r ∈ rules, IRuleOK r) (ma
 theorem text_ok : (∀ s silent, ∃ m s', ruleText s silent = .ok (m, s')) := by
   intro s silent
   unfold ruleText
-  simp only
-  split <;> split <;> exact ⟨_, _, rfl⟩
+  split <;> exact ⟨_, _, rfl⟩
 
 /-- **T1 obligation** — in the current source `paragraph` is the last block rule, `text` the first
 inline rule, and both are in every preset's component lists ("Supported" configurations keep them) -/
